@@ -15,6 +15,11 @@ impl<'r> G<'r> {
     fn lit_str(&mut self) -> String {
         let words = ["a", "xy", "name", "v 1", "q_z"];
         let mut s = words[self.rng.below(words.len())].to_string();
+        if self.rng.chance(1, 8) {
+            // escapes, also directly in front of the closing quote: "C:\\", "q\"", "t\tn\n"
+            s = ["C:\\\\", "q\\\"", "t\\tn\\n", "it\\'s"][self.rng.below(4)].to_string();
+            self.p.features.push("string:escapes");
+        }
         if self.cfg.non_ascii && self.rng.chance(1, 5) {
             s.push_str(NON_ASCII_WORDS[self.rng.below(NON_ASCII_WORDS.len())]);
         }
